@@ -55,7 +55,8 @@ def strategy_(draw, tier):
     w = draw(st.sampled_from(WORKLOADS))
     if w == "scenario":
         ops = draw(st.lists(st.sampled_from(["vmdk-open", "vmdk-read", "vmdk-flat-big", "vhdx-open", "vhdx-read", "hdd-open", "hdd-read", "hdd-guid",
-                                             "envelope-decrypt", "cli", "cli-existing-output", "cli-wrong-key", "vmtar-list", "vmtar-extract", "keystore"]),
+                                             "envelope-decrypt", "cli", "cli-existing-output", "cli-wrong-key", "vmtar-list", "vmtar-extract", "keystore",
+                                             "vmtar-modes", "vhdx-abs-parent", "hyperv-dirty", "rw-handles"]),
                             min_size=2, max_size=10))
         return {"workload": w, "ops": ops, "n": draw(st.integers(0, 1 << 20))}
     mod = importlib.import_module(f"hv.props.{w.lower()}")
@@ -162,6 +163,42 @@ def build_evidence(d, n):
     with open(os.path.join(d, "esx", "s.v00"), "wb") as f:
         f.write(raw)
     info["vmtar"] = os.path.join(d, "esx", "s.v00")
+    import gzip
+
+    with open(os.path.join(d, "esx", "s.vgz"), "wb") as f:
+        f.write(gzip.compress(raw, 6, mtime=0))
+    info["vmtar-gz"] = os.path.join(d, "esx", "s.vgz")
+    # a differencing VHDX whose parent is only reachable through absolute_win32_path
+    os.makedirs(os.path.join(d, "hv2"))
+    os.makedirs(os.path.join(d, "elsewhere"))
+    bvhdx.build(c12.VHDX_SPEC)[0].write_to(os.path.join(d, "elsewhere", "p.vhdx"))
+    abs_win = os.path.join(d, "elsewhere", "p.vhdx").lstrip("/").replace("/", "\\")
+    child2 = dict(child, locator=[["relative_path", "..\\gone\\p.vhdx"], ["absolute_win32_path", abs_win]])
+    bvhdx.build(child2)[0].write_to(os.path.join(d, "hv2", "child.avhdx"))
+    info["vhdx-abs"] = os.path.join(d, "hv2", "child.avhdx")
+    # a Hyper-V file with outstanding replay-log entries ("dirty")
+    hv = bytearray(c12.base_hyperv()[0])
+    replay = c12.base_hyperv()[1]
+    import struct
+
+    struct.pack_into("<I", hv, replay + 8, 2)
+    for i in range(2):
+        struct.pack_into("<QIIIII", hv, replay + 34 + 28 * i, 0x3000 + 0x100 * i, 16, 0, 0, 0, 0)
+    os.makedirs(os.path.join(d, "hyperv"))
+    with open(os.path.join(d, "hyperv", "vm.vmcx"), "wb") as f:
+        f.write(bytes(hv))
+    info["hyperv-dirty"] = os.path.join(d, "hyperv", "vm.vmcx")
+    info["hyperv-dirty-bytes"] = bytes(hv)
+    # plain single images for caller-supplied (writable) handles
+    os.makedirs(os.path.join(d, "img"))
+    from hv.props import c11
+
+    seeds = c11.seeds()
+    for key, sname in (("qcow2", "qcow2"), ("vdi", "vdi"), ("vhd", "vhd-dyn"), ("hds", "hds-v2"), ("kdmv", "vmdk-kdmv"), ("vhdx-plain", "vhdx")):
+        p = os.path.join(d, "img", key + ".img")
+        with open(p, "wb") as f:
+            f.write(seeds[sname][1])
+        info[key] = p
     return info
 
 
@@ -237,6 +274,39 @@ def run_scenario(spec, out):
                                     t.extractfile(m).read()
                     elif op == "keystore":
                         KeyStore.from_text(Path(info["keystore"]).read_text())
+                    elif op == "vmtar-modes":
+                        for name, modes in ((info["vmtar"], ["r", "r:", "r:*", "r|*"]), (info["vmtar-gz"], ["r:gz", "r:*", "r|gz"])):
+                            for mode in modes:
+                                t = vmtar.open(name, mode)
+                                for m in t:
+                                    if m.isreg():
+                                        t.extractfile(m).read()
+                                t.close()
+                    elif op == "vhdx-abs-parent":
+                        v = VHDX(Path(info["vhdx-abs"]))
+                        opened.append(v)
+                        v.seek(1 << 20)
+                        v.read(20000)
+                    elif op == "hyperv-dirty":
+                        from dissect.hypervisor.descriptor.hyperv import HyperVFile
+
+                        with open(info["hyperv-dirty"], "r+b") as fh:  # a caller may well hand over a writable handle
+                            HyperVFile(fh).as_dict()
+                        HyperVFile(core.track(info["hyperv-dirty-bytes"])).as_dict()
+                    elif op == "rw-handles":
+                        from dissect.hypervisor.disk.hdd import HDS
+                        from dissect.hypervisor.disk.qcow2 import QCow2
+                        from dissect.hypervisor.disk.vdi import VDI
+                        from dissect.hypervisor.disk.vhd import VHD
+
+                        for cls_, key in ((QCow2, "qcow2"), (VDI, "vdi"), (VHD, "vhd"), (HDS, "hds"), (VMDK, "kdmv"), (VHDX, "vhdx-plain")):
+                            with open(info[key], "r+b") as fh:
+                                s_ = cls_(fh)
+                                s_.seek(0)
+                                s_.read(20000)
+                            b = core.track(open(info[key], "rb").read())
+                            s_ = cls_(b)
+                            s_.read(4096)
                 _v, err = lib(step)
                 if err is not None and not (op == "cli-wrong-key"):
                     if isinstance(err.exc, AssertionError):
@@ -293,6 +363,7 @@ def check(spec) -> Outcome:
     out.cls("workload-" + w)
     sparse_mod.WRITE_LOG.clear()
     core.release_tracked()
+    core.MUTATION_CALLS.clear()
     try:
         if w == "scenario":
             events, opens = run_scenario(spec, out)
@@ -312,6 +383,9 @@ def check(spec) -> Outcome:
         out.fail(f"handle-{rec[0]}", f"the library called {rec[0]}() on a supplied handle: {rec}")
     if core.release_tracked():
         out.fail("handle-content-changed", "a supplied in-memory handle was modified in place")
+    for rec in core.MUTATION_CALLS[:3]:
+        out.fail(f"handle-{rec[0]}", f"the library called {rec[0]}() on a supplied in-memory handle: {rec}")
+    core.MUTATION_CALLS.clear()
     sparse_mod.WRITE_LOG.clear()
     out.nontrivial = bool(opens)
     for site, n in opens.items():
